@@ -285,17 +285,17 @@ struct WrapEnc<E: Engine, T: RateEncoder<E>>(T, PhantomData<E>);
 
 impl<E: Engine, T: RateEncoder<E>> DynEnc for WrapEnc<E, T> {
     fn add(&mut self, s: &[u8]) -> Result<(), Error> {
-        self.0.add_original_shard(s)
+        crate::alloc::measured(|| self.0.add_original_shard(s))
     }
     fn encode(&mut self, r: usize, sb: usize) -> Result<EncOut, Error> {
-        let res = self.0.encode()?;
+        let res = crate::alloc::measured(|| self.0.encode())?;
         Ok(read_encoder_result(&res, r, sb))
     }
     fn reset(&mut self, k: usize, r: usize, sb: usize) -> Result<(), Error> {
-        self.0.reset(k, r, sb)
+        crate::alloc::measured(|| self.0.reset(k, r, sb))
     }
     fn into_work(self: Box<Self>) -> Option<EncoderWork> {
-        Some(self.0.into_parts().1)
+        Some(crate::alloc::measured(|| self.0.into_parts()).1)
     }
 }
 
@@ -303,14 +303,14 @@ struct RsEnc(ReedSolomonEncoder);
 
 impl DynEnc for RsEnc {
     fn add(&mut self, s: &[u8]) -> Result<(), Error> {
-        self.0.add_original_shard(s)
+        crate::alloc::measured(|| self.0.add_original_shard(s))
     }
     fn encode(&mut self, r: usize, sb: usize) -> Result<EncOut, Error> {
-        let res = self.0.encode()?;
+        let res = crate::alloc::measured(|| self.0.encode())?;
         Ok(read_encoder_result(&res, r, sb))
     }
     fn reset(&mut self, k: usize, r: usize, sb: usize) -> Result<(), Error> {
-        self.0.reset(k, r, sb)
+        crate::alloc::measured(|| self.0.reset(k, r, sb))
     }
     fn into_work(self: Box<Self>) -> Option<EncoderWork> {
         None
@@ -321,20 +321,20 @@ struct WrapDec<E: Engine, T: RateDecoder<E>>(T, PhantomData<E>);
 
 impl<E: Engine, T: RateDecoder<E>> DynDec for WrapDec<E, T> {
     fn add_o(&mut self, i: usize, s: &[u8]) -> Result<(), Error> {
-        self.0.add_original_shard(i, s)
+        crate::alloc::measured(|| self.0.add_original_shard(i, s))
     }
     fn add_r(&mut self, i: usize, s: &[u8]) -> Result<(), Error> {
-        self.0.add_recovery_shard(i, s)
+        crate::alloc::measured(|| self.0.add_recovery_shard(i, s))
     }
     fn decode(&mut self, k: usize, sb: usize, given: &BTreeSet<usize>) -> Result<DecOut, Error> {
-        let res = self.0.decode()?;
+        let res = crate::alloc::measured(|| self.0.decode())?;
         Ok(read_decoder_result(&res, k, sb, given))
     }
     fn reset(&mut self, k: usize, r: usize, sb: usize) -> Result<(), Error> {
-        self.0.reset(k, r, sb)
+        crate::alloc::measured(|| self.0.reset(k, r, sb))
     }
     fn into_work(self: Box<Self>) -> Option<DecoderWork> {
-        Some(self.0.into_parts().1)
+        Some(crate::alloc::measured(|| self.0.into_parts()).1)
     }
 }
 
@@ -342,17 +342,17 @@ struct RsDec(ReedSolomonDecoder);
 
 impl DynDec for RsDec {
     fn add_o(&mut self, i: usize, s: &[u8]) -> Result<(), Error> {
-        self.0.add_original_shard(i, s)
+        crate::alloc::measured(|| self.0.add_original_shard(i, s))
     }
     fn add_r(&mut self, i: usize, s: &[u8]) -> Result<(), Error> {
-        self.0.add_recovery_shard(i, s)
+        crate::alloc::measured(|| self.0.add_recovery_shard(i, s))
     }
     fn decode(&mut self, k: usize, sb: usize, given: &BTreeSet<usize>) -> Result<DecOut, Error> {
-        let res = self.0.decode()?;
+        let res = crate::alloc::measured(|| self.0.decode())?;
         Ok(read_decoder_result(&res, k, sb, given))
     }
     fn reset(&mut self, k: usize, r: usize, sb: usize) -> Result<(), Error> {
-        self.0.reset(k, r, sb)
+        crate::alloc::measured(|| self.0.reset(k, r, sb))
     }
     fn into_work(self: Box<Self>) -> Option<DecoderWork> {
         None
@@ -368,9 +368,9 @@ fn mk_enc_e<E: Engine + 'static>(
     w: Option<EncoderWork>,
 ) -> Result<Box<dyn DynEnc>, Error> {
     Ok(match kind {
-        "high" => Box::new(WrapEnc(HighRateEncoder::new(k, r, sb, e, w)?, PhantomData)),
-        "low" => Box::new(WrapEnc(LowRateEncoder::new(k, r, sb, e, w)?, PhantomData)),
-        _ => Box::new(WrapEnc(DefaultRateEncoder::new(k, r, sb, e, w)?, PhantomData)),
+        "high" => Box::new(WrapEnc(crate::alloc::measured(|| HighRateEncoder::new(k, r, sb, e, w))?, PhantomData)),
+        "low" => Box::new(WrapEnc(crate::alloc::measured(|| LowRateEncoder::new(k, r, sb, e, w))?, PhantomData)),
+        _ => Box::new(WrapEnc(crate::alloc::measured(|| DefaultRateEncoder::new(k, r, sb, e, w))?, PhantomData)),
     })
 }
 
@@ -404,9 +404,9 @@ fn mk_dec_e<E: Engine + 'static>(
     w: Option<DecoderWork>,
 ) -> Result<Box<dyn DynDec>, Error> {
     Ok(match kind {
-        "high" => Box::new(WrapDec(HighRateDecoder::new(k, r, sb, e, w)?, PhantomData)),
-        "low" => Box::new(WrapDec(LowRateDecoder::new(k, r, sb, e, w)?, PhantomData)),
-        _ => Box::new(WrapDec(DefaultRateDecoder::new(k, r, sb, e, w)?, PhantomData)),
+        "high" => Box::new(WrapDec(crate::alloc::measured(|| HighRateDecoder::new(k, r, sb, e, w))?, PhantomData)),
+        "low" => Box::new(WrapDec(crate::alloc::measured(|| LowRateDecoder::new(k, r, sb, e, w))?, PhantomData)),
+        _ => Box::new(WrapDec(crate::alloc::measured(|| DefaultRateDecoder::new(k, r, sb, e, w))?, PhantomData)),
     })
 }
 
